@@ -90,6 +90,9 @@ def action_coverage(stdout):
     return cov
 
 
+_LREC = re.compile(r"\[\s*l \|->")
+
+
 def iter_paths(dump_path, want_len=None):
     """Light reader of a TLC dump: yields only the parsed `path` variable (the states are large)."""
     buf = None
@@ -100,13 +103,13 @@ def iter_paths(dump_path, want_len=None):
             elif buf is not None and not ln.startswith((" ", "\t")):
                 txt = " ".join(buf)
                 buf = None
-                if want_len is None or txt.count("[l |->") == want_len:
+                if want_len is None or len(_LREC.findall(txt)) == want_len:
                     yield tla.parse_value(txt)
             elif buf is not None:
                 buf.append(ln.strip())
         if buf is not None:
             txt = " ".join(buf)
-            if want_len is None or txt.count("[l |->") == want_len:
+            if want_len is None or len(_LREC.findall(txt)) == want_len:
                 yield tla.parse_value(txt)
 
 
@@ -263,10 +266,13 @@ class Replayer:
                 self.alias.append(("alias:" + s, f"{type(o).__name__} from {site} is reachable from internal state after {now_op}", self.at))
 
     # ---- observation through the public getters
-    def observe(self):
-        """-> (view in the spec's terms, [(accessor, returned object)])"""
+    def observe(self, now_op="observe"):
+        """-> (view in the spec's terms, [(accessor, returned object)]).  Side-effect free: if the results
+        cache did not exist before, it is dropped again afterwards (so the real object stays in the state the
+        specification is in); the sharing check of what the getters returned is made before that."""
         np, sm = self.np, self.sm
         got = []
+        cache_before = sm._results_dict
 
         def g(name, v):
             got.append((name, v))
@@ -310,6 +316,10 @@ class Replayer:
         else:
             res = {k: NONE for k in ("x", "logl", "beta", "logw")}
         view = {"cur": cur, "beta": beta, "hist": hist, "bhist": bhist, "res": res}
+        if not self.impl_mode:
+            self.check_alias_named(got, now_op)
+        if cache_before is None:
+            sm._results_dict = None
         return view, got
 
     def scribble_objs(self, objs):
@@ -488,7 +498,7 @@ class Replayer:
                     raise Inconclusive(f"copy=False did not store the caller's array for {k}")
             # (2) the view
             try:
-                view, got = self.observe()
+                view, got = self.observe(op)
             except Diverged:
                 raise
             except Exception as ex:
@@ -509,10 +519,9 @@ class Replayer:
             prev = view
             # (4) overwrite everything the accessors just returned, read again
             objs = self.flatten([o for name, o in got if name not in self.muted], [])
-            self.check_alias_named(got, op)
             self.scribble_objs(free + objs)
             try:
-                view2, got2 = self.observe()
+                view2, got2 = self.observe(op)
             except Diverged:
                 raise
             except Exception as ex:
@@ -663,8 +672,8 @@ def component_part(ck) -> dict:
     from tempest.state_manager import StateManager
 
     quick = ck.tier == "quick"
-    depth_full = 4 if quick else 5            # exhaustive, all actions incl. getters
-    depth_deep = 5 if quick else 6            # exhaustive, getters left out (heap no-ops), coarse labels
+    depth_full = 3 if quick else 5            # exhaustive, all actions incl. getters
+    depth_deep = 4 if quick else 6            # exhaustive, getters left out (heap no-ops), coarse labels
     enum_len = 3 if quick else 4              # every operation sequence up to this length is replayed
     nsim, sim_depth = (300, 8) if quick else (4000, 10)
     runs, errs = {}, []
